@@ -75,11 +75,15 @@ KnownTags ==
   @@ [t \in {<<40,262>>} |-> "Xs"]             \* SmallestImagePixelValue (US or SS)
   @@ [t \in {<<8,4416>>, <<64,629>>} |-> "SQ"] \* ReferencedImageSequence, RequestAttributesSequence
   @@ [t \in {<<65532,65532>>} |-> "OB"]        \* DataSetTrailingPadding
+  @@ [t \in {<<20,12368>>} |-> "Ox"]           \* (0014,3050) DarkCurrentCounts (OB or OW)
+  @@ [t \in {<<40,12294>>} |-> "Lt"]           \* (0028,3006) LUTData (US or OW)
+  @@ [t \in {<<8,0>>, <<16,0>>} |-> "UL"]      \* generic group length
+  @@ [t \in {<<9,16>>} |-> "LO"]               \* private creator
 DictEntry(tag) == IF tag \in DOMAIN KnownTags THEN KnownTags[tag] ELSE "none"
 (* VR an Implicit VR reader must assume (PS3.5 A.1: Pixel Data is OW;      *)
 (* multi-VR classes resolve to their default; unknown attributes are UN)   *)
 ImplicitVR(tag) == LET e == DictEntry(tag) IN
-                   CASE e = "none" -> "UN" [] e = "Px" -> "OW" [] e = "Xs" -> "US" [] OTHER -> e
+                   CASE e = "none" -> "UN" [] e \in {"Px", "Ox", "Lt"} -> "OW" [] e = "Xs" -> "US" [] OTHER -> e
 
 ---------------------------------------------------------------------------
 (* integers on the wire *)
